@@ -127,7 +127,7 @@ fn run_case(c: &Case, s: &Subject) -> Res {
     } else {
         "same"
     };
-    let mut check = |r: &mut Res, out: &[u8], transition: &str| -> bool {
+    let check = |r: &mut Res, out: &[u8], transition: &str| -> bool {
         r.evals += 1;
         let m = match fmt::media_sig(s.format, out) {
             Ok(m) => m,
